@@ -21,7 +21,7 @@ def C03_full (decompile : Bytes → Bytes → Option (List Char)) : Prop :=
     ∃ text, decompile c.lscr c.lnam = some text ∧ readLingo text = some s
 
 /-- The part of the property the code is expected to satisfy: the same statement restricted to scripts all of whose handler bodies
-    avoid the four exit-repeat configurations of the open findings F23, F24, F25, F126 and the one `repeat while` spelling that is
+    avoid the exit-repeat configurations of the open findings F23, F24, F25, F126, F138 and the one `repeat while` spelling that is
     byte-identical to a `repeat with` (`C03Supported`, decidable, defined on the
     SOURCE tree in lean/Drx/Spec/Supported.lean). Evaluated, not proved: harness/c03.py checks on every run that on all enumerated
     skeletons (≤ 5 compound constructs) and random programs the real decompiler fails EXACTLY on the unsupported handlers. -/
@@ -39,6 +39,13 @@ theorem witnesses_unsupported :
     ∧ exitClasses [.repeatWhile cnd [.ifThen cnd [.exitRepeat] [], .ifThen cnd [put1] []]] = ["F24"]
     ∧ exitClasses [.repeatWhile cnd [.ifThen cnd [put1] [.exitRepeat]]] = ["F25"]
     ∧ exitClasses [.repeatWhile cnd [.ifThen cnd [.exitRepeat, put1, put1] []]] = ["F126"] := by decide +kernel
+
+/-- … and so is the tell-block variant of F23 (a tell block is a statement list of its own; control constructs INSIDE it are
+    supported since F137 was repaired) -/
+theorem witness_tell :
+    exitClasses [.repeatWhile cnd [.tell (.call "window".toList [.str "a".toList]) [put1, .exitRepeat]]] = ["F138"]
+    ∧ C03Supported [.tell (.call "window".toList [.str "a".toList]) [.ifThen cnd [put1] [put1], .repeatWhile cnd [.ifThen cnd [.exitRepeat] []]]] = true := by
+  decide +kernel
 
 /-- … while the shapes the fixtures contain, and exit-free nestings, are supported -/
 theorem supported_examples :
